@@ -23,8 +23,9 @@ CHECKS = {
         text="For every block of the families and each split/rule/criterion setting the real front-end produces the "
              "specification; one SMT query per sub-block asks for a machine state and an admissible linearisation of the "
              "memory/storage operations under which the specification and the sub-block differ (stack, memory byte, storage "
-             "slot); a second query per unordered pair of accesses asks for a state in which they overlap. Counterexamples "
-             "are replayed on concrete twins of both semantics.",
+             "slot); a second query per unordered pair of accesses asks for a state in which they overlap; a third, cached per "
+             "opcode, asks whether an instruction marked commutative really commutes for all words (the mark lets every back "
+             "end swap its operands). Counterexamples are replayed on concrete twins of both semantics.",
         note="Trusted: E1/E2 semantics (E1 validated against its twin every C01 run), z3/cvc5. Schedules are fully symbolic "
              "for specifications with <= 6 (quick) / 8 (thorough) memory operations; larger ones are counted, not decided. "
              "Offsets/lengths < 2^32."),
@@ -130,8 +131,10 @@ CHECKS = {
                   "domains (flag x spelling, contract selections) enumerated",
         text="generate_push_instruction runs symbolically with the PUSH0 switch and the constant symbolic: z3 decides on "
              "every path that name, id, gas and size are those of PUSH0 exactly when the flag is on and the constant is "
-             "zero. The pricing/emission of both spellings of a zero push and the five contract selections are finite "
-             "domains and are enumerated; pipeline outputs under both flag settings are checked for PUSH0 leakage and for "
+             "zero. The pricing/emission of both spellings of a zero push and nine contract selections on a document whose "
+             "contract names are suffixes/prefixes of one another (the output for a selection must equal that contract's part "
+             "of the whole-document output, a name matching no contract with code must be refused) are finite domains and are "
+             "enumerated; pipeline outputs under both flag settings are checked for PUSH0 leakage and for "
              "agreement of the tool's accounting with the independent cost model.",
         note="Trusted: vlib.pysym, vlib.cost. Only the first clause has a semantic variable for a solver; the rest is "
              "exhaustive enumeration of small finite domains plus translation validation on pipeline outputs."),
@@ -142,19 +145,23 @@ CHECKS = {
         text="id_to_asm_bytecode is executed from its source for every instruction kind with the operand value symbolic: on "
              "every path the emitted item must carry the canonical hexadecimal (PUSH, data, immutable) or decimal (tag, "
              "sub-assembly, library) rendering of exactly the specified number. Shipped documents are optimized by the real "
-             "tool under 3 (quick) / 6 (thorough) option sets and compared with the input by an independent JSON reader "
+             "tool under 3 (quick) / 6 (thorough) option sets, together with a synthetic document (two contracts with code, several "
+             "code-bearing data entries side by side and nested, every pseudo-push kind, library indices that coincide with "
+             "other operands), and compared with the input by an independent JSON reader "
              "(contracts, version, auxdata, data, source lists, every non-optimizable item with all fields, well-formedness "
              "and provenance of every emitted item, re-read by the tool's own parser).",
         note="The document part is concrete validation on shipped inputs, not a solver verdict; the rebuild lemmas over all "
              "small block layouts are decided in C14. Pseudo-push operands are compared numerically."),
     "C12": dict(
         level="model_checking", design="5/C12", engine="CrossHair havoc of module globals + native histories in fresh processes",
-        technique="CrossHair symbolic execution (z3) of the real front-end from an arbitrary symbolic pre-state of its scalar "
-                  "and string-list module globals (one inductive step instead of histories); counterexamples replayed natively",
+        technique="CrossHair symbolic execution (z3) of the real front-end from an arbitrary symbolic pre-state of its scalar, "
+                  "string-list and dictionary module globals (one inductive step instead of histories); counterexamples replayed natively",
         text="Every module-level name assigned inside a function of the specification generator is found by an AST walk of "
              "the current source; all scalar ones (28 on this tree) are set to unconstrained symbolic values at once and the "
-             "real evm2rbr_compiler/get_sfs_dict runs on 8 concrete blocks under 3 (quick) / 4 (thorough) option sets: CrossHair "
-             "must confirm over all paths that specification and sub-block list equal a fresh interpreter's. Container globals, "
+             "real evm2rbr_compiler/get_sfs_dict runs on 11 concrete blocks under 3 (quick) / 4 (thorough) option sets: CrossHair "
+             "must confirm over all paths that specification and sub-block list equal a fresh interpreter's. Every string-list "
+             "global and every dictionary global of an observed shape (str->str, str->int, int->str) is, one at a time, set to an "
+             "arbitrary value with at most one element. Dictionaries with tuple or nested values, "
              "emitted code and statistics are covered by real histories (0-2 predecessor blocks plus earlier subjects, one "
              "fresh process per history).",
         note="Option-determined globals keep their option value (the quantifier says 'same options'). CrossHair stubs the "
@@ -179,7 +186,8 @@ CHECKS = {
         text="For all operands in [0,2^256) z3 decides that evaluate_expression, evaluate_expression_ter and apply_transform "
              "(executed from their current source) neither raise nor build integers beyond a stated size. Whole-pipeline "
              "termination cannot be encoded: stress blocks (boundary constants for EXP/shifts/division, NOT/ISZERO chains, 17+ "
-             "live values, rule pairs) run through the real optimize_asm_contract under four option sets within a CPU budget, "
+             "live values, rule pairs, existing-result blocks, a block-ending instruction in the middle, blocks of 23-47 "
+             "instructions for the partition heuristic, doubling chains (DUP1 OP)^n) run through the real optimize_asm_contract under four option sets within a CPU budget, "
              "and an injected analysis fault must cost exactly the marked block in a two-block contract and a document.",
         note="Only the kernel part is a solver verdict over all inputs; budgets and containment are exercised, not proved. "
              "Fault injection rebinds ir_block.evm2rbr_compiler inside the harness process (listed as a stub)."),
